@@ -30,7 +30,7 @@ MODULE = "LalrpopModel.Props.C24"
 T = "LalrpopModel.Rw."
 THEOREMS = [T + n for n in [
     "line_comment_lexes_empty", "indentation_lexes_empty", "row_layouts_lex_equal", "render_lex_spec",
-    "render_flags_lex_equal", "comment_format_instantiates", "guarded_sites_are_comments",
+    "render_flags_lex_equal", "multi_line_buffer_verbatim", "multi_line_buffer_flag_independent", "comment_format_instantiates", "guarded_sites_are_comments",
     "comment_display_formats_are_comments", "rw_source_facts_match_model",
 ]]
 
@@ -317,7 +317,7 @@ def run(ctx):
     })
     ctx.coverage["samples"].append({"random_grammar": stats["sample_grammar"]})
     ctx.assumptions += [
-        "each rust! call of the generator is one `line` event whose text is lexically closed (no literal or block comment spans two calls)",
+        "each rust! call of the generator is one `line` event whose text (possibly several lines: literals and block comments may span lines inside it) is lexically closed at its end, i.e. no literal or block comment spans two calls",
         "arguments formatted into guarded comments contain no newline (Debug-escaped terminals, identifiers, numbers)",
         "token boundaries of Rust are as the two lexers (Lean Model/RustLex.lean, harness fmtflags.rs) describe them; punctuation is compared character by character",
     ]
